@@ -215,6 +215,7 @@ func parseCencLine(line string) (Req, bool) {
 		if err != nil {
 			return r, false
 		}
+		decodeDNFlags(p)
 		txt, err := ldap.DecompileFilter(p)
 		if err != nil {
 			return r, false
@@ -339,4 +340,20 @@ func (clientWireStream) Oracle(c Case, impl string) (bool, string, string) {
 
 func (clientWireStream) Class(c Case, impl string) (string, bool) {
 	return c.Kind, !strings.HasPrefix(impl, "err")
+}
+
+// decodeDNFlags: go-ldap's DecompileFilter wants the dnAttributes flag of an extensible match as a decoded bool, which
+// a packet decoded from bytes does not carry (context-specific class); the harness decodes it for its own use.
+func decodeDNFlags(p *ber.Packet) {
+	if p.Tag == ldap.FilterExtensibleMatch {
+		for _, c := range p.Children {
+			if c.Tag == ldap.MatchingRuleAssertionDNAttributes && c.Value == nil && c.Data != nil && c.Data.Len() == 1 {
+				c.Value = c.Data.Bytes()[0] != 0
+			}
+		}
+		return
+	}
+	for _, c := range p.Children {
+		decodeDNFlags(c)
+	}
 }
